@@ -573,7 +573,13 @@ static int on_modereport(TickitTermDriver *ttd, int initial, int mode, int value
         xd->initialised.cursorvis = 1;
         break;
       case 69: // DECVSSM
-        if(value == 1 || value == 2)
+        /* start() has asked for the mode to be set just before this query: a
+         * reply of 2 ("reset") means the terminal knows the mode but did not
+         * set it, so CSI Pl;Pr s is still save-cursor there and a scroll using
+         * it would move whole lines. Only "set" (1) and "permanently set" (3)
+         * make DECSLRM usable
+         */
+        if(value == 1 || value == 3)
           xd->cap.slrm = 1;
         xd->initialised.slrm = 1;
         break;
